@@ -44,7 +44,16 @@ def run(ctx):
                 ctx.violation('recovery-fails', h.text(), '%s: the build after a crash/interrupt does not start normally: exit %s %s' % (h.sid, b.exit, (b.err or '')[:100]))
             prev = (st, b)
     import os, vlib, realbin
-    sb, nreal = realbin.signals(os.path.join(vlib.build_impl('plain'), 'ninja'))
+    ninja = os.path.join(vlib.build_impl('plain'), 'ninja')
+    sb, nreal = realbin.signals(ninja)
+    unconfirmed = 0
+    if any(name in ('signal-hang', 'signal-setup', 'kill-setup') for name, _ in sb):
+        # a watchdog expired (30 s): a defect of ninja shows again when the same scenarios are repeated, a stalled host does not.
+        # Everything else (wrong exit status, output left behind, ...) is reported from the first round as it is.
+        sb2, _ = realbin.signals(ninja)
+        again = {name for name, _ in sb2}
+        unconfirmed = sum(1 for name, _ in sb if name in ('signal-hang', 'signal-setup', 'kill-setup') and name not in again)
+        sb = [(name, w) for name, w in sb if name not in ('signal-hang', 'signal-setup', 'kill-setup') or name in again]
     for name, w in sb: ctx.violation(name, 'real binary: tools/realbin.py signals\n', w)
     nev += nreal
     ctx.cov.update(evaluations=nev, distinct_nontrivial=len(nontriv), exhaustive=True,
@@ -52,4 +61,4 @@ def run(ctx):
                         'each followed by a recovery build and a repeat; %d histories with an interrupt at a random wait with a random subset of running commands having modified their outputs; '
                         'oracles: interrupt cleanup rule, recovery build starts normally, equals the clean build, converges' % (len(bases), len(hists), reached, len(ints)),
                    samples=[{'scenario': h.sid, 'steps': [s.line[:100] for s in h.steps[-3:]]} for h in (hists[:2] + ints[:1])],
-                   distribution=dict(crash_points_per_base=npts[:40], crash_scenarios=len(hists), interrupt_scenarios=len(ints)))
+                   distribution=dict(crash_points_per_base=npts[:40], crash_scenarios=len(hists), interrupt_scenarios=len(ints), real_binary_watchdog_expiries_not_reproduced=unconfirmed))
